@@ -2552,6 +2552,12 @@ void read_table_column_alignments(const char * source, token * table, scratch_pa
 	while (walker) {
 		switch (walker->type) {
 			case TABLE_CELL:
+				if (counter >= kMaxTableColumns - 1) {
+					// No room to store further alignments -- the remaining
+					// columns use the default, like columns without a separator cell
+					break;
+				}
+
 				align = scan_alignment_string(&source[walker->start]);
 
 				switch (align) {
